@@ -32,7 +32,7 @@ EXHAUSTIVE = 'all start-order permutations (filters started 150 ms apart) x D in
 def gen(rng, seed):
     fam = rng.choice(['chain', 'chain', 'tee', 'tee_rejoin', 'tee_rejoin3', 'join'])
     N = rng.randint(8, 16)
-    p = Pipe()
+    p = Pipe(tcp=rng.random() < 0.2)       # tcp://host:port addressing (request channel on port + 1) in a fifth of the pipelines
     feats = set()
 
     def src_beh(name, topics=None):
